@@ -213,7 +213,11 @@ def obligations(tier, seed):
         p1 = 'au::make_quantity_point<%s>(a)' % PT[s1]['ty']; q2 = 'au::make_quantity<%s>(b)' % PT[t1]['ty']
         P1 = '((i128)a * %s + %s)' % (G.lit(int(PT[s1]['u'] * FINE)), G.lit(int(PT[s1]['o'] * FINE)))
         Q2 = '((i128)b * %s)' % G.lit(int(PT[t1]['u'] * FINE))
-        rng = lambda v, r: '1' if G.REPS[r]['bits'] <= 32 else '(%s >= %s && %s <= 1000000000)' % (v, '0' if not G.REPS[r]['signed'] else '-1000000000', v)
+        # an operand narrower than the common rep ranges over its whole rep; one that already has the width of the common rep is bounded (10^9 for 64 bits, 10^5 for 32 bits)
+        # so that the scaled positions fit the common rep (an earlier version left a 32-bit operand unbounded next to a uint8_t one: the library's own int arithmetic overflowed,
+        # which is outside the property's precondition - a false alarm of this grid in the thorough tier, corrected)
+        cb = G.REPS[CR]['bits']
+        rng = lambda v, r: '1' if G.REPS[r]['bits'] < cb else '(%s >= %s && %s <= %d)' % (v, '0' if not G.REPS[r]['signed'] else str(-(10 ** 9 if cb == 64 else 10 ** 5)), v, 10 ** 9 if cb == 64 else 10 ** 5)
         pre_c = '%s && %s' % (rng('a', r1), rng('b', r2))
         for (expr, sign, nm, fn) in (('%s + %s' % (p1, q2), '+', 'point-plus-quantity', 'au::operator+(QuantityPoint, Quantity)'),
                                      ('%s + %s' % (q2, p1), '+', 'quantity-plus-point', 'au::operator+(Quantity, QuantityPoint)'),
